@@ -823,6 +823,12 @@ int hwloc_bitmap_from_ulongs(struct hwloc_bitmap_s *set, unsigned nr, const unsi
 
 	HWLOC__BITMAP_CHECK(set);
 
+	if (!nr) {
+		/* no ulong given, the bitmap is empty (a bitmap always has at least one ulong) */
+		hwloc_bitmap_zero(set);
+		return 0;
+	}
+
 	if (hwloc_bitmap_reset_by_ulongs(set, nr) < 0)
 		return -1;
 
